@@ -70,6 +70,18 @@ def main(n=3000):
         def apr():
             b = bytearray(); b.append(x); b += struct.pack('>h', vals[0] if vals else 0); b.extend(array.array('B', uv)); return b
         bad += _same(ap, apr, 1); runs += 1
+    # multi-field struct formats
+    for _ in range(n // 3):
+        fmt = rnd.choice(['>BL', '>BH', '<HB', '>2B', '!hH', '>BxH', '>LB', '<bI', '>Bh', '>3B', '>HL', '<Q', '>q', '>lB'])
+        flds = pysym._parse_fmt(fmt)[1]
+        cur.vals = [rnd.choice([0, 1, -1, 255, 256, 65535, 65536, -32768, 2**31, 2**32 - 1, 2**32, rnd.randint(-2**33, 2**33)]) for fl in flds if fl is not None]
+        bad += _same(lambda: pysym.m_pack(fmt, *[core.lift(v) for v in cur.vals]), lambda: struct.pack(fmt, *cur.vals), 1); runs += 1
+        sz = struct.calcsize(fmt)
+        cur.b = bytes(rnd.randrange(256) for _ in range(rnd.choice([sz, sz, sz, sz - 1, sz + 1])))
+        bad += _same(lambda: pysym.m_unpack(fmt, SymBuf(list(cur.b))), lambda: struct.unpack(fmt, cur.b), 1); runs += 1
+        cur.o = rnd.randint(-2, 3)
+        cur.b2 = bytes(rnd.randrange(256) for _ in range(sz + rnd.randint(0, 3)))
+        bad += _same(lambda: pysym.m_unpack_from(fmt, SymBuf(list(cur.b2)), cur.o), lambda: struct.unpack_from(fmt, cur.b2, cur.o), 1); runs += 1
     # bytes/bytearray methods of SymBuf
     for _ in range(n // 3):
         cur.b = bytes(rnd.choice([0, 1, 2]) for _ in range(rnd.randint(0, 10)))
